@@ -468,7 +468,7 @@ func genC14Scenario(g *Gen, tier string) C14Scenario {
 }
 
 func (w *Worker) runC14Case(idx int64) {
-	g := &Gen{R: simrt.NewRand(simrt.Mix(w.Seed, uint64(idx), 14))}
+	g := &Gen{R: simrt.NewRand(simrt.Mix(w.Seed, uint64(idx), 14)), Deep: w.Tier == "thorough"}
 	sc := genC14Scenario(g, w.Tier)
 	trace("C14 case %d: %+v", idx, sc)
 	weights := swarmWeights(g.R)
